@@ -12,7 +12,7 @@ fi
 if ! go build ./... 2>/dev/null; then echo "$N: does not build"; cd /; rm -rf $D; exit 3; fi
 suite=skipped
 if [ "${SUITE:-1}" = 1 ]; then if /verif/tools/suite.sh $D >/dev/null 2>&1; then suite=pass; else suite=FAIL; fi; fi
-/verif/bin/electlint -p all -repo $D -no-evidence > $D/checks.log 2>&1
+${BIN:-/verif/bin/electlint} -p all -repo $D -no-evidence > $D/checks.log 2>&1
 n=$(grep -c "^VIOLATION property=" $D/checks.log)
 echo "$N: suite=$suite alarms=$n"
 grep -E "^(VIOLATION|UNDECIDED) " -A1 $D/checks.log | grep -v "^--" | cut -c1-${COLS:-330}
